@@ -68,14 +68,14 @@ func callTf(name string, in []byte) (out string, changed bool, errd bool, inAfte
 
 // C14: transformations are total, pure functions with sound change reports.
 func C14(run *vf.Run) {
-	run.Rule = "Transform.tla: byte-wise reference definitions (lowercase, uppercase, length, hexEncode/hexDecode, urlDecode, removeNulls, replaceNulls, removeWhitespace, compressWhitespace, trim*, none) and the laws every transformation obeys (Pure, InputIntact, ChangeSound, inverse pairs hexDecode.hexEncode / base64Decode.base64Encode / urlDecode.urlEncode = id, idempotence of trimming / whitespace / NUL removal / case mapping). Transform_MC enumerates every byte string over an adversarial alphabet (letters of both cases, space, tab, NUL, %, +, hex digits, backslash, &, 0xA0, 0xC3, 0xFF) up to MaxLen - truncated escapes at every offset are in it by construction - and TLC checks the model's own laws; the real registered transformations (all 32) are evaluated on every input on a private buffer, the function table (input, output, changed flag, second evaluation, input bytes afterwards, compositions) is recorded and Transform_Trace checks every law on every record; md5 / sha1 / length are compared with Go's crypto and strconv. Non-trivial = record whose output differs from its input"
+	run.Rule = "Transform.tla: byte-wise reference definitions (lowercase, uppercase, length, hexEncode/hexDecode, urlDecode, removeNulls, replaceNulls, removeWhitespace, compressWhitespace, trim*, none) and the laws every transformation obeys (Pure, InputIntact, ChangeSound, inverse pairs hexDecode.hexEncode / base64Decode.base64Encode / urlDecode.urlEncode = id, idempotence of trimming / whitespace / NUL removal / case mapping). Transform_MC enumerates every byte string over an adversarial alphabet (letters of both cases, space, tab, NUL, %, +, hex digits, backslash, &, the two bytes of a no-break space 0xC2 0xA0 - so that deleting a byte between them creates one -, 0xC3, 0xFF) up to MaxLen - truncated escapes at every offset are in it by construction - and TLC checks the model's own laws; the real registered transformations (all 32) are evaluated on every input on a private buffer, the function table (input, output, changed flag, second evaluation, input bytes afterwards, compositions) is recorded and Transform_Trace checks every law on every record; md5 / sha1 / length are compared with Go's crypto and strconv. Non-trivial = record whose output differs from its input"
 	run.Exhaustive = true
 	run.Assume("md5 / sha1 / base64 reference values come from the Go standard library (trusted base)")
 	run.Assume("lowercase / uppercase / removeWhitespace / compressWhitespace reference equality is asserted on ASCII inputs only (on invalid UTF-8 the standard definition is ambiguous)")
 	maxLen := vf.Pick(run, 3, 3)
-	alphabet := "{97, 65, 32, 9, 0, 37, 43, 50, 102, 255, 92, 38}"
+	alphabet := "{97, 65, 32, 9, 0, 37, 43, 50, 102, 255, 92, 38, 194, 160}"
 	if run.Thorough() {
-		alphabet = "{97, 65, 32, 9, 0, 37, 43, 50, 102, 255, 92, 38, 160, 195, 47, 120, 117, 35, 59}"
+		alphabet = "{97, 65, 32, 9, 0, 37, 43, 50, 102, 255, 92, 38, 160, 194, 195, 47, 120, 117, 35, 59}"
 	}
 	var inputs [][]byte
 	var mu sync.Mutex
